@@ -25,6 +25,11 @@ structure SpecSt where
   /-- committed state before the last Commit / Merge, and the id of that transaction (crash images) -/
   prev : SpecDB := {}
   lastTx : Nat := 0
+  /-- Merge runs concurrently with the transactions of this trace (C17) -/
+  concMerge : Bool := false
+  /-- every value ever committed per bucket and key (to recognise a stale value resurrected by an
+  unlocked Merge: finding D-MERGE-NOLOCK) -/
+  hist : Assoc (Assoc (List Bytes)) := []
   deriving Inhabited
 
 /-- abstraction of a model state: what the indexes say, structure by structure -/
@@ -78,6 +83,21 @@ def rxMatch (i : Nat) (rem : Bytes) : Bool :=
   | 3 => rem.isEmpty
   | _ => false
 
+/-- parse `[k=v,k=v]` -/
+def parsePairs (t : String) : List (Bytes × Bytes) :=
+  let inner := stripBrackets t '[' ']'
+  if inner == "" then [] else (inner.splitOn ",").filterMap fun kv =>
+    match kv.splitOn "=" with
+    | [k, v] => some (parseBytes k, parseBytes v)
+    | _ => none
+
+/-- signature of D-MERGE-NOLOCK on a KV read of bucket `b`: every pair the implementation returned is
+either wanted or carries a value that was committed for that key at some time (a stale value written
+back by the unlocked Merge), and no wanted key is missing. -/
+def staleExplains (hist : Assoc (Assoc (List Bytes))) (b : Bytes) (impl want : List (Bytes × Bytes)) : Bool :=
+  impl.all (fun p => want.contains p || (((aget? hist b).bind (aget? · p.1)).getD []).contains p.2) &&
+  want.all (fun p => impl.any (·.1 == p.1))
+
 /-- result of a spec step: new state, expectation (`none`: the spec does not speak), a finding
 signature triggered by this line, and whether the line is only acceptable as an error because the
 transaction is read-only or finished. -/
@@ -128,14 +148,27 @@ def step (sp : SpecSt) (model : State) (cmd : String) (impl : String) : SpecOut 
     else
       let installed := sp.txW && cls == "ok"
       -- a failing commit of a write transaction is legitimate (oversized entry); it must change nothing
+      let hist' := if installed && sp.concMerge then
+          sp.work.kv.foldl (fun h (b, m) => m.foldl (fun h (k, e) =>
+            let hb := (aget? h b).getD []
+            let hk := (aget? hb k).getD []
+            if hk.contains e.value then h else aput h b (aput hb k (e.value :: hk))) h) sp.hist
+        else sp.hist
       { st := { sp with committed := if installed then sp.work else sp.committed, txClosed := true, writeSet := [],
-                        prev := sp.committed, lastTx := sp.txids.headD 0 },
+                        prev := sp.committed, lastTx := sp.txids.headD 0, hist := hist' },
         expect := some (ex "ok" (errOk := sp.txW)),
         taint := if sp.txW && cls != "ok" && sp.writeSet.length ≥ 2 then some "D-COMMIT-PARTIAL" else none }
   | "rollback" =>
     if !sp.txOpen || sp.txClosed then { st := sp, expect := some (ex "err") }
     else { st := { sp with txClosed := true, writeSet := [] }, expect := some (ex "ok") }
   | "capture" => { st := sp, expect := none }
+  | "concmerge" => { st := { sp with concMerge := true }, expect := none }
+  | "backupobs" =>
+    let want := "ok open=ok obs=" ++ obs sp.committed (N 2)
+    let implNorm := match (resPayload impl).splitOn " obs=" with
+      | [h, o] => "ok " ++ h ++ " obs=" ++ (dropEmpties ("ok " ++ o)).drop 3
+      | _ => impl
+    { st := sp, expect := some (ex want (alts := if implNorm == want then [impl] else [])) }
   | "image" =>
     -- a crash at any file-mutation point: Open must succeed and show the state before the
     -- transaction, or — once its last record (the commit marker) is completely written — after it
